@@ -1056,11 +1056,24 @@ impl CodegenContext {
                         .expect_args(name.span, args.len(), def.args.len())
                         .map_err(|e| self.map_evaluation_error(e))?;
 
+                    // Macros cannot end their own recursion (a macro body is expanded in full), so bound the depth
+                    const MAX_MACRO_DEPTH: usize = 64;
+                    if self.macro_depth >= MAX_MACRO_DEPTH {
+                        return Err(Diagnostic::error()
+                            .with_message(format!(
+                                "macro '{}' is expanded recursively more than {} levels deep",
+                                name.data, MAX_MACRO_DEPTH
+                            ))
+                            .with_labels(vec![name.span.to_label()])
+                            .into());
+                    }
+
                     let macro_scope =
                         Identifier::new(format!("$macro_{}", self.next_macro_scope_id));
                     self.next_macro_scope_id += 1;
+                    self.macro_depth += 1;
 
-                    self.with_scope(&macro_scope, None, |s| {
+                    let macro_result = self.with_scope(&macro_scope, None, |s| {
                         for (idx, arg_name) in def.args.iter().enumerate() {
                             let (expr, _) = args.get(idx).unwrap();
 
@@ -1085,7 +1098,9 @@ impl CodegenContext {
                         }
 
                         Ok(())
-                    })?;
+                    });
+                    self.macro_depth -= 1;
+                    macro_result?;
                 } else {
                     self.undefined.insert(UndefinedSymbol {
                         scope_nx: self.current_scope_nx,
